@@ -255,3 +255,23 @@ Proof.
   with_strategy transparent [h_ev_seen_reject] (unfold h_ev_seen_reject). cbn. rewrite Hin. reflexivity.
 Qed.
 Print Assumptions C08_seen_set_unbounded.
+
+(** ... and the set only grows while the timestamp stays: a forwarded event's
+    id is recorded in front of the ids already there, none is forgotten. *)
+Theorem C08_forwarded_id_recorded : forall r3 sub e r',
+  rs_dedup_limit r3 sub e = Some (r', true) ->
+  exists ids, assoc sub (rs_seen r3) = Some ids /\
+              assoc sub (rs_seen r') = Some (ev_id e :: ids).
+Proof.
+  intros r3 sub e r' H. unfold rs_dedup_limit in H.
+  destruct (h_ev_seen_reject _ _); [discriminate|].
+  destruct (assoc sub (rs_seen r3)) as [ids|] eqn:Hs; [|discriminate].
+  exists ids. split; [reflexivity|].
+  cbn [rs_matcher rs_with_seen] in H.
+  destruct (assoc sub (rs_matcher r3)) as [ms|]; [|discriminate].
+  destruct (h_ev_done _); [discriminate|].
+  destruct (lms_limit_match ms e) as [[ms' matched]|]; [|discriminate].
+  destruct (h_ev_nomatch matched); [discriminate|].
+  injection H as <-. cbn. apply assoc_m_set_same.
+Qed.
+Print Assumptions C08_forwarded_id_recorded.
